@@ -63,6 +63,7 @@ void hk_write_pre(int fd);	/* just before the real write(2) */
 void hk_splice(int fdin, int fdout, size_t len, long ret, int err);
 void hk_wait4(pid_t pid_arg, int options, pid_t ret, int status);
 void hk_kill(pid_t pid, int sig, int ret, int err);
+void hk_kill_pre(pid_t pid, int sig);	/* just before the real kill(2): a place for a delay */
 void hk_fork(pid_t ret);
 void hk_sigaction(int signum, const struct sigaction *act);
 void hk_sig_enter(int signum);
